@@ -1,4 +1,5 @@
 import VelaVerif.Lemmas.Sem
+import VelaVerif.Lemmas.Pool
 /-!
 # C01 — the compiled model computes the same function as the source model
 
@@ -19,7 +20,7 @@ Theorems here are about the machinery that executes:
   reference accumulator on the whole tensor when the receptive-field equations of C10 hold.
 -/
 namespace VelaVerif.Props.C01
-open VelaVerif.Requant VelaVerif.TfliteRef VelaVerif.Lemmas.Sem VelaVerif.Tiling
+open VelaVerif.Requant VelaVerif.TfliteRef VelaVerif.Lemmas.Sem VelaVerif.Lemmas.Pool VelaVerif.Tiling
 
 /-! ## Tiling -/
 
@@ -267,6 +268,53 @@ example :
     let wgt : Nat → Nat → Nat → Int := fun ky kx c => (ky : Int) - kx + c
     (List.range 3).map (fun oy => NpuSem.convAcc 4 4 2 (fun y x c => ifm (2 + y) x c) 3 3 wgt 1 1 1 1 0 1 5 oy 2) =
     (List.range 3).map (fun oy => TfliteRef.convAcc 6 4 2 ifm 3 3 wgt 1 1 1 1 1 1 (-5) (3 + oy) 2) := by
+  decide
+
+/-! ## Pooling on a stripe -/
+
+/-- **MAX pooling on a stripe = reference MAX_POOL on the whole tensor.** The executor takes the maximum over the valid
+    positions of the window on the stripe (rows `[a, a + h)`, stripe-local top padding `pt'`); under the hypotheses of
+    `conv_stripe_eq` (receptive-field equation and row validity of C10) this is the reference's `poolMax` at output row
+    `oy0 + oy` of the whole tensor, started from any `lowest` not above the first window value (the type minimum). -/
+theorem pool_stripe_max_eq (H W h a oy0 pt pt' pl kh kw sy sx : Nat) (ifm : Nat → Nat → Int) (oy ox : Nat) (lowest v0 : Int) (rest : List Int)
+    (hfield : (a : Int) - pt' = (oy0 : Int) * sy - pt)
+    (hrow : ∀ ky, ky < kh →
+      ((pt' ≤ oy * sy + ky ∧ oy * sy + ky - pt' < h) ↔
+       (0 ≤ (((oy0 + oy) * sy + ky : Nat) : Int) - pt ∧ (((oy0 + oy) * sy + ky : Nat) : Int) - pt < H)))
+    (hvals : NpuSem.windowVals h W (fun y x => ifm (a + y) x) kh kw sy sx pt' pl oy ox = v0 :: rest)
+    (hlow : lowest ≤ v0) :
+    rest.foldl max v0 = TfliteRef.poolMax H W ifm kh kw sy sx pt pl (oy0 + oy) ox lowest := by
+  rw [poolMax_eq_foldl, ← windowVals_eq_refWindow, ← windowVals_stripe H W h a oy0 pt pt' pl kh kw sy sx ifm oy ox hfield hrow, hvals]
+  simp only [List.foldl]
+  rw [Int.max_eq_right hlow]
+
+/-- **AVERAGE pooling on a stripe**: sum of the zero-point-corrected window values and their number are the reference's
+    `poolSumCount` on the whole tensor -/
+theorem pool_stripe_avg_eq (H W h a oy0 pt pt' pl kh kw sy sx : Nat) (ifm : Nat → Nat → Int) (oy ox : Nat) (zp : Int)
+    (hfield : (a : Int) - pt' = (oy0 : Int) * sy - pt)
+    (hrow : ∀ ky, ky < kh →
+      ((pt' ≤ oy * sy + ky ∧ oy * sy + ky - pt' < h) ↔
+       (0 ≤ (((oy0 + oy) * sy + ky : Nat) : Int) - pt ∧ (((oy0 + oy) * sy + ky : Nat) : Int) - pt < H))) :
+    let vals := NpuSem.windowVals h W (fun y x => ifm (a + y) x) kh kw sy sx pt' pl oy ox
+    let sc := TfliteRef.poolSumCount H W ifm kh kw sy sx pt pl (oy0 + oy) ox
+    vals.foldl (fun acc x => acc + (x - zp)) 0 = sc.1 - zp * sc.2 ∧ vals.length = sc.2 := by
+  intro vals sc
+  have e : vals = refWindow H W ifm kh kw sy sx pt pl (oy0 + oy) ox := by
+    simp only [vals]
+    rw [windowVals_stripe H W h a oy0 pt pt' pl kh kw sy sx ifm oy ox hfield hrow, windowVals_eq_refWindow]
+  have e2 : sc = (0 + vals.foldl (· + ·) 0, 0 + vals.length) := by
+    simp only [sc]
+    rw [poolSumCount_eq_foldl, ← e, foldl_pair_list]
+  rw [e2, foldl_sub_zp]
+  simp
+
+/-- non-vacuity: 3x3 stride-1 SAME pooling of 6 rows, second stripe (output rows 3..5 from IFM rows 2..5, no top padding) -/
+example :
+    let ifm : Nat → Nat → Int := fun y x => ((y * 7 + x * 3) % 11 : Nat)
+    (List.range 3).map (fun oy => NpuSem.windowVals 4 4 (fun y x => ifm (2 + y) x) 3 3 1 1 0 1 oy 2) =
+    (List.range 3).map (fun oy => NpuSem.windowVals 6 4 ifm 3 3 1 1 1 1 (3 + oy) 2) ∧
+    (List.range 3).map (fun oy => ((NpuSem.windowVals 4 4 (fun y x => ifm (2 + y) x) 3 3 1 1 0 1 oy 2).foldl max (-128))) =
+    (List.range 3).map (fun oy => TfliteRef.poolMax 6 4 ifm 3 3 1 1 1 1 (3 + oy) 2 (-128)) := by
   decide
 
 end VelaVerif.Props.C01
